@@ -122,8 +122,7 @@ def run_enforcer(kind, tbl, ops):
     names, doms = _universe(ops)
     loaded = 0
     if kind in ("ecrm", "ecdm"):
-        # add_grouping_policy on a conditional model raises KeyError('g') (management_enforcer.py:245 indexes
-        # rm_map, which has no entry for a conditional g): the assignments come in through load_policy
+        # the leading assignments come in through load_policy, later ones through add/remove_grouping_policy
         from casbin.persist.adapters.string_adapter import StringAdapter
         if kind == "ecrm":
             lines = [f"p, {nm(b)}, o{b}, read" for b in names]
@@ -135,6 +134,7 @@ def run_enforcer(kind, tbl, ops):
                                            + [nm(p) for p in ECRM_DEFAULT_PARAMS]))
             loaded += 1
         e = casbin.Enforcer(m, StringAdapter("\n".join(lines) + "\n"))
+        e.enable_auto_save(False)                    # the string adapter implements no incremental writes
     else:
         e = casbin.Enforcer(m)
         for b in names:
@@ -149,7 +149,10 @@ def run_enforcer(kind, tbl, ops):
         c = op[0]
         try:
             if kind in ("ecrm", "ecdm") and c in (ADD, DEL):
-                obs.append([998])                               # not generated (see above)
+                # incremental management on a conditional model: the rule carries the condition's parameter columns
+                args = [nm(op[1]), nm(op[2])] + [nm(d) for d in op[3]] + [nm(p) for p in ECRM_DEFAULT_PARAMS]
+                ok = (e.add_grouping_policy if c == ADD else e.remove_grouping_policy)(*args)
+                obs.append([0, []] if ok else [999, 800 if c == ADD else 801])
             elif c == ADD:
                 ok = e.add_grouping_policy(nm(op[1]), nm(op[2]), *[nm(d) for d in op[3]])
                 obs.append([0, []] if ok else [999, 800])      # a rejected add is not a history we generate
@@ -607,9 +610,12 @@ def gen_conditions(rng, count, kinds):
             ops += queries
             # delete and re-add a carrier: the condition stays with the (user, role[, domain]) pair
             u, r = carriers[0]
-            if kind not in ("ecrm", "ecdm"):
-                ops += [[DEL, u, r, doms], [HAS, u, r, qdoms[0]], [ADD, u, r, doms]]
-                ops += queries[:len(names) * len(names)]
+            ops += [[DEL, u, r, doms], [HAS, u, r, qdoms[0]], [ADD, u, r, doms]]
+            ops += queries[:len(names) * len(names)]
+            if kind in ("ecrm", "ecdm") and len(links) > 1:
+                # a further assignment made through the management API after everything else, then revoked
+                u2, r2 = [l for l in links if l != (u, r)][0]
+                ops += [[DEL, u2, r2, doms]] + queries[:len(names) * len(names)] + [[ADD, u2, r2, doms]] + queries[:len(names)]
             if kind not in ("ecrm", "ecdm"):
                 ops += [[ROLES, a, doms] for a in names] + [[USERS, a, doms] for a in names]
             yield dict(kind=kind, L=L, tbl=tbl, ops=ops, spec=True, stratum="conditions")
